@@ -73,8 +73,8 @@ MANIFEST = {
                    "(failure_with_detail_sets, failure_slot). The generated table is replayed against recorded call sequences of the real library (1 and 2 threads, valid and "
                    "invalid calls), and compile/scan results through the C API are compared with the Rust API on generated rule sets, globals and buffers."),
     "level_note": ("Parity with the Rust API is differential (generated inputs), not a theorem. Trusted: Coq kernel, gen_capi.py (syntactic path walker; raises on shapes it cannot "
-                   "classify), harness, extern declarations. Known findings: process abort on yrx_scanner_finish without a scanned block and on console.log of a string with NUL "
-                   "when a console callback is installed. 'success clears the message' is reported as an observation, not demanded."),
+                   "classify), harness, extern declarations. The inputs of two repaired process aborts (yrx_scanner_finish without a scanned block; console.log of a string with NUL "
+                   "with a console callback installed) run first in every check. 'success clears the message' is reported as an observation, not demanded."),
     "technique": "Coq proof over a source-generated effect table + differential replay of recorded call sequences + C-vs-Rust dump comparison",
     "design_ref": "DESIGN.md section 4, C19",
 }
